@@ -310,11 +310,11 @@ func c12Compound(r *rand.Rand, no, s2 int, tombBy bool) c12Scenario {
 	m := 2 + r.IntN(2)
 	b1 := c12Base(repo, id, 1, 4, 1)
 	b1.Docs = c12MkDocs(r, repo, 1, c12Range(0, 3))
-	b1.ShardMax = 0
+	b1.ShardMax = 1 << 16 // one shard; a small limit keeps the builder's preallocation small
 	sc := c12Scenario{Setup: []c12Build{b1}, TombBy: tombBy}
 	for j, n := range []string{"by/one", "by/two"} {
 		bb := c12Base(n, uint32(21+j), 1, 4, 1)
-		bb.ShardMax = 0
+		bb.ShardMax = 1 << 16
 		bb.Docs = c12MkDocs(r, n, 1, c12Range(0, 2+r.IntN(2)))
 		sc.Compound = append(sc.Compound, bb)
 	}
@@ -334,7 +334,7 @@ func c12Scenarios(r *rand.Rand, quick bool) []c12Scenario {
 	add := func(f func(no int) c12Scenario) { out = append(out, f(len(out))) }
 	rounds := 1
 	if !quick {
-		rounds = 3
+		rounds = 2
 	}
 	for round := 0; round < rounds; round++ {
 		for s1 := 1; s1 <= 3; s1++ {
@@ -471,7 +471,7 @@ func TestVerif_C12(t *testing.T) {
 	defer rec.Done()
 	log.SetOutput(io.Discard)
 
-	reps := rec.N(2, 8)
+	reps := rec.N(2, 4)
 	workers := 16
 	r := rec.Rand(1)
 	scs := c12Scenarios(r, rec.Quick())
@@ -528,6 +528,8 @@ func c12Phase(ref *c12Ref, ex []fsEvent) (phase string, progress string) {
 		loop = "tombstone"
 	}
 	switch {
+	case rn == 0 && rm > 0:
+		return loop + "/before any rename", fmt.Sprintf("0 of %d renames, %d of %d old files handled", ref.renames, rm, ref.removals)
 	case rn == 0:
 		return "write/nothing installed", fmt.Sprintf("0 of %d renames", ref.renames)
 	case rn < ref.renames:
@@ -672,8 +674,8 @@ func c12RunScenario(rec *kit.Rec, sc *c12Scenario, base string, reps, workers in
 				continue // VERIF_FS_TORN truncates only *.tmp files named by the event: same state as the plain kill
 			}
 			n := 1
-			if k > ref.firstRen {
-				n = reps
+			if k > ref.firstRen && mode == "kill" {
+				n = reps // the torn variant exists for states with *.tmp files; the map-order variety comes from the plain kills
 			}
 			for i := 0; i < n; i++ {
 				addJob(mode, k)
@@ -681,7 +683,13 @@ func c12RunScenario(rec *kit.Rec, sc *c12Scenario, base string, reps, workers in
 		}
 	}
 	for k := 1; k <= ref.F; k++ {
-		for i := 0; i < reps; i++ {
+		// which rename/remove is the k-th depends on the map order too; the quick
+		// tier takes one order per k, the thorough tier two
+		failReps := 1
+		if reps > 2 {
+			failReps = 2
+		}
+		for i := 0; i < failReps; i++ {
 			addJob("fail", k)
 		}
 	}
@@ -867,7 +875,7 @@ func c12OneFault(rec *kit.Rec, sc *c12Scenario, ref *c12Ref, st *c12Stats, witne
 			st.failErrNeither++
 			st.neither++
 			if len(st.failErrNeitherSamples) < 3 {
-				st.failErrNeitherSamples = append(st.failErrNeitherSamples, fmt.Sprintf("failed %s %s; Finish: %s; vs v1: %s", failed.Op, strings.Join(failed.Paths, " -> "), res.Err, diffViews(ref.old, view)))
+				st.failErrNeitherSamples = append(st.failErrNeitherSamples, clip(fmt.Sprintf("failed %s %s; Finish returned an error; vs v1: %s", failed.Op, strings.Join(failed.Paths, " -> "), diffViews(ref.old, view)), 400))
 			}
 		}
 	}
